@@ -239,7 +239,7 @@ def run(ctx, replay):
     with ThreadPoolExecutor(max_workers=len(vs)) as ex:
         exes = list(ex.map(lambda v: tc.build(**v[1]), vs))
     ctx.pending, ctx.nbad = [], 0
-    ncase = 120 if ctx.tier == "quick" else 700
+    ncase = 400 if ctx.tier == "quick" else 1500
     for (label, kw), exe in zip(vs, exes):
         W = width(kw)
         ctx.curW = W
